@@ -48,8 +48,14 @@ type c06Roles struct {
 	t        *evFrames
 	loops    []*evFrame // goroutine bodies that run the loop
 	loopSnap map[*evFrame]*EvSnapshot
-	isLoop   map[*evFrame]bool
-	names    map[string]string
+	// cbNoStopCheck: where the callback can run for an item for which, since it was peeked, no wait
+	// listening for the stop signal was passed ("" = nowhere); loopItemsDone: that was evaluated
+	cbNoStopCheck string
+	loopItemsDone bool
+	// goWithoutFlagUnderLock: a start of the loop goroutine not preceded by a read of the stopped flag under the lock
+	goWithoutFlagUnderLock string
+	isLoop                 map[*evFrame]bool
+	names                  map[string]string
 }
 
 var c06RolesCache = map[*Prog]*c06Roles{}
@@ -217,6 +223,7 @@ func c06Resolve(c *Ctx) *c06Roles {
 			}
 		})
 	}
+	var others []string
 	for _, name := range chans {
 		id := "field:" + name
 		switch {
@@ -225,8 +232,28 @@ func c06Resolve(c *Ctx) *c06Roles {
 		case sentInClose[id] && !closed[id]:
 			one(&ro.tokenCh, id, "running-token channel (the one Close takes)")
 		default:
-			one(&ro.resetCh, id, "reset-signal channel")
+			others = append(others, id)
 		}
+	}
+	if ro.t == nil {
+		ro.t = ro.newFrames()
+	}
+	if ro.stopCh != "" && ro.tokenCh == "" && len(others) == 2 {
+		// Close does not touch the token: the running token is the channel whose successful
+		// send guards every start of the loop goroutine
+		tok := ro.tokenBySpawn(chans)
+		var rest []string
+		for _, id := range others {
+			if id == tok {
+				ro.tokenCh = id
+			} else {
+				rest = append(rest, id)
+			}
+		}
+		others = rest
+	}
+	for _, id := range others {
+		one(&ro.resetCh, id, "reset-signal channel")
 	}
 	if ro.stopCh == "" || ro.tokenCh == "" || ro.resetCh == "" {
 		undecided("the stop / running-token / reset channels of queue.Processor are not resolvable by role (stop=%q token=%q reset=%q)", ro.stopCh, ro.tokenCh, ro.resetCh)
@@ -236,6 +263,52 @@ func c06Resolve(c *Ctx) *c06Roles {
 	}
 	c06RolesCache[p] = ro
 	return ro
+}
+
+// tokenBySpawn: the channel field on which a send succeeded on every explored
+// path of Enqueue that starts the loop goroutine.
+func (ro *c06Roles) tokenBySpawn(chans []string) string {
+	type st struct{ sent uint8 }
+	bit := map[string]uint8{}
+	for i, c := range chans {
+		if i < 8 {
+			bit["field:"+c] = 1 << uint(i)
+		}
+	}
+	x := NewEvExplorer[st](ro.t)
+	acc, n := uint8(0xff), 0
+	x.Instr = func(cx *EvCtx[st], in ssa.Instruction, s st) (st, bool) {
+		switch v := in.(type) {
+		case *ssa.Send:
+			s.sent |= bit[chanIdent(cx.Resolve(v.Chan).V)]
+		case *ssa.Go:
+			if gf := ro.t.GoFrame(cx.F, v); gf != nil && ro.runsLoop(gf, cx.Snapshot()) {
+				acc &= s.sent
+				n++
+			}
+		}
+		return s, true
+	}
+	x.Select = func(cx *EvCtx[st], sel *ssa.Select, k int, s st) (st, bool) {
+		if k >= 0 && sel.States[k].Dir == types.SendOnly {
+			s.sent |= bit[chanIdent(cx.Resolve(sel.States[k].Chan).V)]
+		}
+		return s, true
+	}
+	x.Explore(ro.t.Root(ro.enq), st{})
+	if n == 0 || x.Incomplete != "" {
+		return ""
+	}
+	found := ""
+	for id, b := range bit {
+		if acc&b != 0 && id != ro.stopCh {
+			if found != "" {
+				return ""
+			}
+			found = id
+		}
+	}
+	return found
 }
 
 // seamField: the func-typed field is assigned exactly once, to a function of
@@ -337,7 +410,7 @@ func evConstBool(v ssa.Value) int {
 
 func checkC06(c *Ctx) {
 	r, p := c.R, c.P
-	r.Explanation = "Decides structural necessary conditions of C06 on events/queue, over the events of the mechanism along every path of the exported entry points and of the loop goroutine with all same-package helpers inlined (constructs resolved by role, not by unexported name): (Q1) the queue field of Processor is only used with the Processor mutex held; (Q2) atomic exit: on every path of the loop goroutine, between observing the queue empty (Peek's ok result false) under the lock and giving up the running token the lock is never released — otherwise an Enqueue in that window finds the loop 'still running' and its item is stranded — and every exit gives the token up exactly once; (Q3) an item is popped only in the critical section in which the head was re-checked to be the very item the loop decided on (object identity), and the callback receives the popped value; (Q4) Close waits for the loop goroutine on every path and, on the path that wins the stopped flag, closes the stop channel and then takes the running token; the loop goroutine is started only on a path that took the token, after wg.Add, and calls wg.Done on every exit; (Q5) the item popped is one established due: on a branch that bounds ScheduledTime().Sub(clock.Now()) by at most 500µs — written on the Duration itself, through its Nanoseconds/Microseconds/Milliseconds/Seconds/Minutes/Hours accessors, int64(d) or d/unit (truncation accounted for: d.Milliseconds() < 1 admits 999999 ns), or as Before/After against clock.Now().Add(K) — or after the timer armed with that same duration fired; (Q6) Enqueue inserts with replace=true and on every path attempts to take the token (start the loop) under the lock afterwards; when the token is not available a reset signal can be posted, and a path that posts none has, after the insert and still under the lock, peeked the head and found it is not the inserted item (object identity; evidence of another kind about the item — its scheduled time, an opaque predicate — leaves this undecided); (Q7) the heap orders by scheduled time ascending through a comparison that is order-isomorphic to the instant (Before/After/Compare/Sub/UnixNano; the truncating Unix/UnixMilli/UnixMicro are reported); (Q8) the token/reset channels have one slot, and a received reset leads to a fresh Peek before anything is armed, popped or executed; every wait on the item's timer also listens for the reset signal. NOT decided: exactly-once / ordering over all histories, timer accuracy, Dequeue's head-change signalling."
+	r.Explanation = "Decides structural necessary conditions of C06 on events/queue, over the events of the mechanism along every path of the exported entry points and of the loop goroutine with all same-package helpers inlined (constructs resolved by role, not by unexported name): (Q1) the queue field of Processor is only used with the Processor mutex held; (Q2) atomic exit: on every path of the loop goroutine, between observing the queue empty (Peek's ok result false) under the lock and giving up the running token the lock is never released — otherwise an Enqueue in that window finds the loop 'still running' and its item is stranded — and every exit gives the token up exactly once; (Q3) an item is popped only in the critical section in which the head was re-checked to be the very item the loop decided on (object identity), and the callback receives the popped value; (Q4) Close waits for the loop goroutine on every path and, on the path that wins the stopped flag, closes the stop channel and then takes (and keeps) the running token — or, if it does not keep the token, every path of the loop to the callback has, since the item was peeked, passed a wait that listens for the stop signal, so that a loop started after Close by an Enqueue that read the stopped flag earlier cannot run a callback (an Enqueue that reads the flag under the lock leaves this undecided); the loop goroutine is started only on a path that took the token, after wg.Add, and calls wg.Done on every exit; (Q5) the item popped is one established due: on a branch that bounds ScheduledTime().Sub(clock.Now()) by at most 500µs — written on the Duration itself, through its Nanoseconds/Microseconds/Milliseconds/Seconds/Minutes/Hours accessors, int64(d) or d/unit (truncation accounted for: d.Milliseconds() < 1 admits 999999 ns), or as Before/After against clock.Now().Add(K) — or after the timer armed with that same duration fired; (Q6) Enqueue inserts with replace=true and on every path attempts to take the token (start the loop) under the lock afterwards; when the token is not available a reset signal can be posted, and a path that posts none has, after the insert and still under the lock, peeked the head and found it is not the inserted item (object identity; evidence of another kind about the item — its scheduled time, an opaque predicate — leaves this undecided); (Q7) the heap orders by scheduled time ascending through a comparison that is order-isomorphic to the instant (Before/After/Compare/Sub/UnixNano; the truncating Unix/UnixMilli/UnixMicro are reported); (Q8) the token/reset channels have one slot, and a received reset leads to a fresh Peek before anything is armed, popped or executed; every wait on the item's timer also listens for the reset signal. NOT decided: exactly-once / ordering over all histories, timer accuracy, Dequeue's head-change signalling."
 	r.Assumptions = append(r.Assumptions, "type-based lock and channel identity", "container/heap implements a min-heap over Less", "calls are followed through static calls, defer and go of same-package functions and through function values whose target is visible in the package (closure parameters, locals and captured cells, bound method values, literal slices of steps up to 8 entries, func-typed fields assigned once, single-implementation unexported interfaces, sync.Once.Do); other dynamic calls are not followed and turn absence claims into UNDECIDED")
 	r.Rule("C06.Q1-guard", "the Processor's queue only under the Processor's mutex", 3)
 	r.Rule("C06.Q2-atomic-exit", "no unlock between 'queue empty' and release of the running token; token released exactly once per exit", 2)
@@ -357,9 +430,9 @@ func checkC06(c *Ctx) {
 	}
 	evGuarded(p, e, r, "C06.Q1-guard", fns, held, []GuardSpec{{Field: ro.queue, Lock: ro.lockID}})
 
+	c06LoopItems(c, ro, true, true)
 	c06Close(c, ro)
 	c06AtomicExit(c, ro)
-	c06LoopItems(c, ro, true, true)
 	c06Enqueue(c, ro)
 	c06Order(c, ro)
 	c06Signals(c, ro)
@@ -504,9 +577,10 @@ func c06AtomicExitX(p *Prog, r *Report, t *evFrames, roots []*evFrame, snaps map
 // ---------------------------------------------------------------- Q4 (Close, spawn) and the loop roots
 
 type q4Spawn struct {
-	held  bool
-	token bool // this path took the running token
-	added bool // wg.Add executed
+	flagHeld bool // the stopped flag was read false while holding the lock (still held)
+	held     bool
+	token    bool // this path took the running token
+	added    bool // wg.Add executed
 }
 
 // loopFrames explores Enqueue and Dequeue and returns the frames of the
@@ -577,6 +651,9 @@ func (ro *c06Roles) spawn(c *Ctx, report bool) {
 				loops = append(loops, gf)
 				ro.loopSnap[gf] = cx.Snapshot()
 			}
+			if !s.flagHeld && ro.goWithoutFlagUnderLock == "" {
+				ro.goWithoutFlagUnderLock = p.Pos(v.Pos())
+			}
 			if !s.added {
 				why = "the loop goroutine is started at " + p.Pos(v.Pos()) + " without a preceding wg.Add: Close may return while a callback is still running"
 			}
@@ -586,11 +663,21 @@ func (ro *c06Roles) spawn(c *Ctx, report bool) {
 		case ssa.CallInstruction:
 			if id, kind, ok := evLockOp(cx, e, v); ok && id == ro.lockID {
 				s.held = kind == opLock || kind == opRLock
+				if !s.held {
+					s.flagHeld = false
+				}
 				return s, true
 			}
 			if callIs(v, "sync", "WaitGroup", "Add") && evWgArg(cx, v) == ro.wgID {
 				s.added = true
 			}
+		}
+		return s, true
+	}
+	x.Branch = func(cx *EvCtx[q4Spawn], ifi *ssa.If, taken bool, s q4Spawn) (q4Spawn, bool) {
+		key, neg := cx.CondKey(ifi.Cond)
+		if call, ok := key.V.(*ssa.Call); ok && evFlagOp(call, ro.stopped) == "Load" {
+			s.flagHeld = (taken == neg) && s.held
 		}
 		return s, true
 	}
@@ -694,6 +781,7 @@ func c06Close(c *Ctx, ro *c06Roles) {
 	}
 	okWait, n := true, 0
 	whyCAS := ""
+	noToken := false // the winner does not keep the running token
 	sawWin := false
 	for _, ex := range x.Explore(ro.t.Root(ro.closeFn), q4Close{}) {
 		n++
@@ -705,8 +793,10 @@ func c06Close(c *Ctx, ro *c06Roles) {
 			sawWin = true
 			if !s.closed {
 				whyCAS = "the call of Close that flips the stopped flag can return without closing the stop channel: the loop is never told to stop"
-			} else if !s.token || s.early {
-				whyCAS = "the call of Close that flips the stopped flag does not take the running token after closing the stop channel: a later Enqueue could start a new loop, and Close does not wait for the running one to end"
+			} else if s.early {
+				whyCAS = "the call of Close that flips the stopped flag takes the running token before it closes the stop channel: it blocks on the token while the loop, never told to stop, keeps running callbacks (forever if items keep arriving)"
+			} else if !s.token {
+				noToken = true
 			}
 		} else if s.closed {
 			whyCAS = "the stop channel can be closed by a call of Close that did not win the stopped flag: a second Close panics"
@@ -721,29 +811,52 @@ func c06Close(c *Ctx, ro *c06Roles) {
 	}
 	pos := p.Pos(ro.closeFn.Pos())
 	r.Check(okWait, c06Prefix+"Q4-close", "events/queue.Processor.Close waits", pos, "wg.Wait on every path", "Close can return without waiting for the loop goroutine (a callback may still run after Close returned)")
-	if !sawWin && whyCAS == "" {
-		r.Undecide("events/queue.Processor.Close: no branch on CompareAndSwap(false,true)/Swap(true) of the stopped flag recognised")
-	} else {
-		r.Check(whyCAS == "", c06Prefix+"Q4-close", "events/queue.Processor.Close stop+token", pos, "winner of the stopped flag closes the stop channel and then takes the running token", whyCAS)
-	}
 	ro.spawn(c, true)
+	okMsg := "winner of the stopped flag closes the stop channel and then takes (and keeps) the running token: no loop can start after Close"
+	undec := ""
+	if whyCAS == "" && noToken {
+		// Without the token a loop can still be started, after Close returned, by an Enqueue that passed
+		// its stopped check before Close. That is harmless only if such a loop cannot reach the callback:
+		// every item it runs was, since it was peeked, taken past a wait that listens for the (closed) stop
+		// channel — or Enqueue decides under the lock, after reading the stopped flag there.
+		switch {
+		case !ro.loopItemsDone:
+			undec = "Close does not keep the running token and the loop's paths to the callback could not be evaluated"
+		case ro.cbNoStopCheck == "":
+			okMsg = "Close does not keep the running token, but every path of the loop to the callback passes, after peeking the item, a wait that listens for the stop signal: a loop started after Close cannot run a callback"
+		case ro.goWithoutFlagUnderLock == "":
+			undec = "Close does not keep the running token and the loop can run the callback at " + ro.cbNoStopCheck + " without having passed a wait on the stop signal since it peeked the item; Enqueue reads the stopped flag under the lock before it starts the loop — whether Close orders itself against that read is not decided"
+		default:
+			whyCAS = "the call of Close that flips the stopped flag does not take (and keep) the running token, the loop goroutine can be started at " + ro.goWithoutFlagUnderLock + " by an Enqueue that read the stopped flag before Close (not under the lock), and that loop can run the callback at " + ro.cbNoStopCheck + " without having passed, since it peeked the item, a wait that listens for the stop signal: a callback runs after Close returned"
+		}
+	}
+	switch {
+	case !sawWin && whyCAS == "":
+		r.Undecide("events/queue.Processor.Close: no branch on CompareAndSwap(false,true)/Swap(true) of the stopped flag recognised")
+	case undec != "":
+		r.Undecide("events/queue.Processor.Close stop+token: %s", undec)
+	default:
+		r.Check(whyCAS == "", c06Prefix+"Q4-close", "events/queue.Processor.Close stop+token", pos, okMsg, whyCAS)
+	}
 }
 
 // ---------------------------------------------------------------- Q3 + Q5
 
 type q35State struct {
-	held    bool
-	secPeek evVal // (frame, peek call) of the last peek in the current critical section
-	secEq   evVal // item known to be identical to the head in this section
-	secUnk  bool  // a branch in this section tested the head through a call that was not followed
-	due     evVal // item established due
-	dueHow  uint8
-	bigK    bool
-	timeDep bool
-	popSt   uint8 // 0 none | 1 verified+due | 2 head not verified | 3 not due
-	popHow  uint8
-	pop     evVal
-	popItem evVal
+	held      bool
+	secPeek   evVal // (frame, peek call) of the last peek in the current critical section
+	secEq     evVal // item known to be identical to the head in this section
+	secUnk    bool  // a branch in this section tested the head through a call that was not followed
+	due       evVal // item established due
+	dueHow    uint8
+	bigK      bool
+	timeDep   bool
+	popSt     uint8 // 0 none | 1 verified+due | 2 head not verified | 3 not due
+	popHow    uint8
+	pop       evVal
+	popItem   evVal
+	lastPeek  evVal // the most recent peek
+	stopOKFor evVal // the peek that was the most recent one when a wait listening for the stop signal was passed without it firing
 }
 
 // evNormItem: the first result of a call is identified with the call.
@@ -986,6 +1099,7 @@ func c06LoopItems(c *Ctx, ro *c06Roles, q3, q5 bool) {
 				return clearSec(s), true
 			}
 			me := evVal{cx.F, call}
+			s.lastPeek = me
 			if s.due == me {
 				s.due, s.dueHow = evVal{}, 0
 			}
@@ -1059,6 +1173,9 @@ func c06LoopItems(c *Ctx, ro *c06Roles, q3, q5 bool) {
 					}
 				case s.popSt == 1:
 					how[s.popHow] = true
+					if s.popItem != s.stopOKFor && ro.cbNoStopCheck == "" {
+						ro.cbNoStopCheck = p.Pos(instrPos(in))
+					}
 				}
 				s.popSt, s.pop, s.popItem, s.popHow = 0, evVal{}, evVal{}, 0
 			}
@@ -1143,6 +1260,12 @@ func c06LoopItems(c *Ctx, ro *c06Roles, q3, q5 bool) {
 		return s, true
 	}
 	x.Select = func(cx *EvCtx[q35State], sel *ssa.Select, k int, s q35State) (q35State, bool) {
+		// a wait that listens for the stop signal and was left another way
+		for i, st := range sel.States {
+			if st.Dir == types.RecvOnly && chanIdent(cx.Resolve(st.Chan).V) == ro.stopCh && i != k {
+				s.stopOKFor = s.lastPeek
+			}
+		}
 		if k < 0 || sel.States[k].Dir != types.RecvOnly {
 			return s, true
 		}
@@ -1182,6 +1305,7 @@ func c06LoopItems(c *Ctx, ro *c06Roles, q3, q5 bool) {
 		r.Undecide("Q3/Q5: %s", x.Incomplete)
 		return
 	}
+	ro.loopItemsDone = true
 	pos := p.Pos(loops[0].fn.Pos())
 	if q3 {
 		if !sawPop {
